@@ -297,7 +297,7 @@ def _auto_cache(eng, ev, l, chain=()):
         key_params = set()
         for a in ev.args:
             key_params |= _params(a)
-        missing = _params(ev.value) - key_params
+        missing = _params(ev.value) - key_params - {l[0]}      # the object that holds the cache is not an argument of it
         if missing and not _reset_per_call(eng, ev, field, chain):
             return False, "the cached value depends on the argument `%s` of the query but is stored under a key that " \
                           "does not: the next call with another argument is answered from it" % sorted(missing)[0][2:]
